@@ -21,7 +21,7 @@ EXPLANATION = (
     "listed transitions towards the i-th descriptor in repeat-then-end order) as polynomial identities; the edge set is exactly the set of admissible "
     "partners of positive weight; residue->descriptor edges carry the attachment atom."
 )
-ASSUMPTIONS = ["python floats as reals", "weights in {0} u [1e-6,1e6] (the code replaces a total below 1e-16 by 1: excluded by the bound)",
+ASSUMPTIONS = ["for molecules with more than 10 descriptors the single weight value 1.0 is excluded from the symbolic range (the printers fork on weight != 1.0)", "python floats as reals", "weights in {0} u [1e-6,1e6] (the code replaces a total below 1e-16 by 1: excluded by the bound)",
                "networkx runs unmodified with proxies as edge attributes", "numpy in bond.py replaced by the list-backed shim"]
 OUTSIDE = ["hand-overs whose admissible descriptors all have weight zero (the graph writes 0 where the generator picks uniformly; no skeleton in the list has this shape)",
            "the dot export's text (run for absence of exceptions only)", "molecules beyond the skeleton list and the strings of tests/test_molecule.py, tests/test_stochastic.py"]
@@ -195,7 +195,8 @@ def run_case(case, g, tier, res):
 
     def h(c):
         mol = g.Molecule(text)
-        roles = gen.symbolize_weights(c, mol)
+        many = len(gen.all_descriptors(mol)) > 10
+        roles = gen.symbolize_weights(c, mol, avoid_one=many)
 
         def detail(label):
             def build(mv, c):
